@@ -20,6 +20,8 @@ DEFAULT_EXIT = ('ok', [W.DEFAULT_BLOCK_NAMES, W.DEFAULT_SPAN_NAMES])
 
 def _op_of(history, rec):
     b = history[rec['b']]
+    if rec['kind'] == 'LEAVE':
+        return {}
     if rec['s'] is not None and rec['s'] >= 0:
         return b['steps'][rec['s']]
     return b
